@@ -120,7 +120,7 @@ def op_bad_update():
 
 
 def op_bad_insert():
-    return st.tuples(st.just("bad_insert"), st.sampled_from(["dict", "none", "str", "tuple"])).map(list)
+    return st.tuples(st.just("bad_insert"), st.sampled_from(["dict", "none", "str", "tuple", "overflow_int", "overflow_int"])).map(list)
 
 
 def op_bad_read():
@@ -149,7 +149,7 @@ PROFILES = {
     "query": dict(clean_fault_update=1, bad_insert_multiple=1, insert=7, insert_multiple=4, remove=2, drop=1, remove_all=1, update=2, reindex=1, reopen=1, probe=8, getters=1),
     "remove": dict(clean_fault_update=1, bad_insert_multiple=1, insert=6, insert_multiple=3, remove=7, drop=2, remove_all=1, update=1, reindex=1, reopen=1, probe=5, getters=1),
     "update": dict(clean_fault_update=1, bad_insert_multiple=1, insert=6, insert_multiple=3, remove=1, drop=1, remove_all=1, update=8, reindex=1, reopen=1, probe=3, getters=1, bad_update=1),
-    "index": dict(insert=6, insert_multiple=3, remove=3, drop=1, remove_all=1, update=2, fault_update=1, bad_insert_multiple=1, reindex=1, reopen=1, probe=2, getters=1),
+    "index": dict(bad_insert=1, insert=6, insert_multiple=3, remove=3, drop=1, remove_all=1, update=2, fault_update=1, bad_insert_multiple=1, reindex=1, reopen=1, probe=2, getters=1),
     "getters": dict(clean_fault_update=1, bad_insert_multiple=1, insert=6, insert_multiple=3, remove=2, drop=1, remove_all=1, update=2, reindex=1, reopen=1, probe=1, getters=8),
     "handle": dict(clean_fault_update=1, bad_insert_multiple=1, insert=6, insert_multiple=3, remove=3, drop=2, remove_all=1, update=4, reindex=1, reopen=1, probe=5, getters=5),
     "raise": dict(insert=6, insert_multiple=2, remove=2, drop=1, remove_all=1, update=2, fault_update=5, bad_insert_multiple=4, bad_update=3, bad_insert=1, bad_read=1, reindex=1, reopen=1, probe=4, getters=1),
